@@ -36,7 +36,7 @@ Definition tv_mem (x : tv) (l : list tv) : bool := existsb (tv_eqb x) l.
 
 (* equality of two lists as sets without repetition: same length and mutual inclusion *)
 Definition tv_set_eqb (a b : list tv) : bool :=
-  Nat.eqb (length a) (length b) && forallb (fun x => tv_mem x b) a && forallb (fun x => tv_mem x a) b.
+  Nat.eqb (List.length a) (List.length b) && forallb (fun x => tv_mem x b) a && forallb (fun x => tv_mem x a) b.
 
 (* ---- building the model's side of a comparison ---- *)
 
@@ -63,7 +63,7 @@ Definition same_set (m : list tv) : tv -> bool :=
    compared with a source table by evaluating it on every key of the table) *)
 Definition each_pair (n : nat) (f : tv -> tv -> bool) : tv -> bool :=
   fun v => match v with
-           | TL l => Nat.eqb (length l) n
+           | TL l => Nat.eqb (List.length l) n
                      && forallb (fun p => match p with TP a b => f a b | _ => false end) l
            | _ => false
            end.
